@@ -264,6 +264,14 @@ def analyse(ctx, cfg, res):
         # unchanged simulator, so the configuration itself is the failing input
         ctx.count("wholerun_rc_nonzero")
         ctx.note(f"whole-run configuration {key} ended with rc={res.rc}: {res.log[-300:]}")
+        # crashes that are the recorded findings of the owning properties (findings.d): counted, not re-reported
+        known = [("get_yearly_value_for_multi_day_stat", "ZeroDivisionError", "C14-open-ended-yearly-share"),
+                 ("_estimate_method_crews_required", "OverflowError", "crew estimate when no survey fits a workday"),
+                 ("scheduled_survey_planner", "KeyError", "C06 F12 trailing partial year")]
+        for frame, exc, what in known:
+            if frame in res.log and exc in res.log[-400:]:
+                ctx.count("wholerun_crashed:known:" + what)
+                return
         ctx.violate("SIM:run-crashed", "the real simulator crashed on a generated configuration: "
                     + (res.log.strip().splitlines() or ["?"])[-1][:200],
                     {"cfg": {k: v for k, v in cfg.items()}, "rc": res.rc, "log_tail": res.log[-1500:]})
